@@ -10,11 +10,11 @@ import (
 )
 
 // resInfo describes the generated resource declarations of a program.
-type resInfo struct {
-	leaf    *comp // R: var n: Int
-	riface  *iface
-	cont    *comp // Q
-	att     *attachment
+type dmResInfo struct {
+	leaf    *dmComp // R: var n: Int
+	riface  *dmIface
+	cont    *dmComp // Q
+	att     *dmAttachment
 	mk      string // name of the factory function (qualified)
 	mkQ     string // factory of the container
 	pass    string // pass-through function
@@ -23,26 +23,26 @@ type resInfo struct {
 	hasOpt  bool
 	hasOne  bool
 	known   bool // container has the methods with the known swap defect shape
-	dictKey *ty
+	dictKey *dmTy
 }
 
-func (g *gen) leafT() *ty { return g.res.leaf.t }
+func (g *dmGen) leafT() *dmTy { return g.res.leaf.t }
 
 // fq: name of a top-level declaration as seen from the code being generated.
-func (g *gen) fq(n string) string { return g.qc.name(n) }
+func (g *dmGen) fq(n string) string { return g.qc.name(n) }
 
 // genResourceDecls declares the resource types of the program.
-func (g *gen) genResourceDecls() {
-	ri := &resInfo{}
+func (g *dmGen) genResourceDecls() {
+	ri := &dmResInfo{}
 	g.res = ri
 	// optional resource interface
 	if g.chance(1, 2) {
 		name := g.fresh("RI")
-		i := &iface{name: name, isRes: true, q: g.qc}
-		get := &fnDecl{name: "get", ret: tInt, view: true}
-		twice := &fnDecl{name: "twice", ret: tInt}
-		i.methods = []*fnDecl{get, twice}
-		b := &blk{}
+		i := &dmIface{name: name, isRes: true, q: g.qc}
+		get := &dmFnDecl{name: "get", ret: dmTInt, view: true}
+		twice := &dmFnDecl{name: "twice", ret: dmTInt}
+		i.methods = []*dmFnDecl{get, twice}
+		b := &dmBlk{}
 		b.open("access(all) resource interface %s {", name)
 		b.open("access(all) view fun get(): Int {")
 		b.open("post {")
@@ -61,15 +61,15 @@ func (g *gen) genResourceDecls() {
 	// leaf
 	{
 		name := g.fresh("R")
-		c := &comp{name: name, isRes: true}
-		c.t = &ty{k: kRes, name: name, comp: c, q: g.qc}
-		c.fields = []field{{name: "n", t: tInt, mut: true, access: "all"}}
+		c := &dmComp{name: name, isRes: true}
+		c.t = &dmTy{k: dmKRes, name: name, comp: c, q: g.qc}
+		c.fields = []dmField{{name: "n", t: dmTInt, mut: true, access: "all"}}
 		hdr := "access(all) resource " + name
 		if ri.riface != nil {
 			hdr += ": " + ri.riface.ref()
 			c.conf = append(c.conf, ri.riface)
 		}
-		b := &blk{}
+		b := &dmBlk{}
 		b.open(hdr + " {")
 		if g.chance(1, 3) {
 			b.add("access(all) event ResourceDestroyed(n: Int = self.n)")
@@ -77,7 +77,7 @@ func (g *gen) genResourceDecls() {
 		}
 		b.add("access(all) var n: Int")
 		if g.chance(1, 3) {
-			c.fields = append(c.fields, field{name: "tag", t: opt(tString), mut: false, access: "all"})
+			c.fields = append(c.fields, dmField{name: "tag", t: dmOpt(dmTString), mut: false, access: "all"})
 			b.add("access(all) let tag: String?")
 			b.open("init(_ n: Int) {")
 			b.add("self.n = n")
@@ -95,7 +95,7 @@ func (g *gen) genResourceDecls() {
 		b.add("self.n = self.n + 1")
 		b.close()
 		b.close()
-		c.methods = []*fnDecl{{name: "get", ret: tInt, view: true}, {name: "bump", mutating: true}}
+		c.methods = []*dmFnDecl{{name: "get", ret: dmTInt, view: true}, {name: "bump", mutating: true}}
 		g.addDecl(b)
 		g.resources = append(g.resources, c)
 		ri.leaf = c
@@ -105,8 +105,8 @@ func (g *gen) genResourceDecls() {
 	// container
 	{
 		name := g.fresh("Q")
-		c := &comp{name: name, isRes: true}
-		c.t = &ty{k: kRes, name: name, comp: c, q: g.qc}
+		c := &dmComp{name: name, isRes: true}
+		c.t = &dmTy{k: dmKRes, name: name, comp: c, q: g.qc}
 		ri.hasArr = g.chance(4, 5)
 		ri.hasDict = g.chance(1, 2)
 		ri.hasOpt = g.chance(1, 2)
@@ -114,40 +114,40 @@ func (g *gen) genResourceDecls() {
 		if !ri.hasArr && !ri.hasDict && !ri.hasOpt && !ri.hasOne {
 			ri.hasArr = true
 		}
-		ri.dictKey = pick(g, []*ty{tString, tInt})
+		ri.dictKey = dmPick(g, []*dmTy{dmTString, dmTInt})
 		ri.known = g.rareKnown
-		b := &blk{}
+		b := &dmBlk{}
 		b.open("access(all) resource %s {", name)
 		var inits []string
 		if ri.hasArr {
 			b.add("access(all) var arr: @[%s]", R)
-			c.fields = append(c.fields, field{name: "arr", t: arr(ri.leaf.t), mut: true, access: "all"})
+			c.fields = append(c.fields, dmField{name: "arr", t: dmArr(ri.leaf.t), mut: true, access: "all"})
 			inits = append(inits, "self.arr <- []")
 		}
 		if ri.hasDict {
 			b.add("access(all) var dict: @{%s: %s}", ri.dictKey.String(), R)
-			c.fields = append(c.fields, field{name: "dict", t: dict(ri.dictKey, ri.leaf.t), mut: true, access: "all"})
+			c.fields = append(c.fields, dmField{name: "dict", t: dmDict(ri.dictKey, ri.leaf.t), mut: true, access: "all"})
 			inits = append(inits, "self.dict <- {}")
 		}
 		if ri.hasOpt {
 			b.add("access(all) var opt: @%s?", R)
-			c.fields = append(c.fields, field{name: "opt", t: opt(ri.leaf.t), mut: true, access: "all"})
+			c.fields = append(c.fields, dmField{name: "opt", t: dmOpt(ri.leaf.t), mut: true, access: "all"})
 			inits = append(inits, "self.opt <- nil")
 		}
 		if ri.hasOne {
 			b.add("access(all) var one: @%s", R)
-			c.fields = append(c.fields, field{name: "one", t: ri.leaf.t, mut: true, access: "all"})
+			c.fields = append(c.fields, dmField{name: "one", t: ri.leaf.t, mut: true, access: "all"})
 			inits = append(inits, fmt.Sprintf("self.one <- create %s(%d)", R, g.r.Intn(5)))
 		}
 		b.add("access(all) var cnt: Int")
-		c.fields = append(c.fields, field{name: "cnt", t: tInt, mut: true, access: "all"})
+		c.fields = append(c.fields, dmField{name: "cnt", t: dmTInt, mut: true, access: "all"})
 		b.open("init() {")
 		for _, l := range inits {
 			b.add(l)
 		}
 		b.add("self.cnt = 0")
 		b.close()
-		add := func(m *fnDecl, body ...string) {
+		add := func(m *dmFnDecl, body ...string) {
 			b.open(g.sig(m) + " {")
 			for _, l := range body {
 				b.add(l)
@@ -155,37 +155,37 @@ func (g *gen) genResourceDecls() {
 			b.close()
 			c.methods = append(c.methods, m)
 		}
-		rp := func(n string, t *ty) param { return param{"_", n, t} }
+		rp := func(n string, t *dmTy) dmParam { return dmParam{"_", n, t} }
 		if ri.hasArr {
-			add(&fnDecl{name: "put", params: []param{rp("r", ri.leaf.t)}, mutating: true}, "self.arr.append(<-r)", "self.cnt = self.cnt + 1")
-			add(&fnDecl{name: "take", ret: ri.leaf.t, mutating: true}, "pre {", "    self.arr.length > 0: \"empty\"", "}", "return <- self.arr.removeFirst()")
-			add(&fnDecl{name: "borrowAt", params: []param{rp("i", tInt)}, ret: ref(ri.leaf.t)}, "return &self.arr[i]")
-			add(&fnDecl{name: "sum", ret: tInt},
+			add(&dmFnDecl{name: "put", params: []dmParam{rp("r", ri.leaf.t)}, mutating: true}, "self.arr.append(<-r)", "self.cnt = self.cnt + 1")
+			add(&dmFnDecl{name: "take", ret: ri.leaf.t, mutating: true}, "pre {", "    self.arr.length > 0: \"empty\"", "}", "return <- self.arr.removeFirst()")
+			add(&dmFnDecl{name: "borrowAt", params: []dmParam{rp("i", dmTInt)}, ret: dmRef(ri.leaf.t)}, "return &self.arr[i]")
+			add(&dmFnDecl{name: "sum", ret: dmTInt},
 				"var t = 0", "for r in &self.arr as &["+R+"] {", "    t = t + r.n", "}", "return t")
 			if ri.known {
-				add(&fnDecl{name: "swapIdx", params: []param{rp("i", tInt), rp("r", ri.leaf.t)}, ret: ri.leaf.t, mutating: true},
+				add(&dmFnDecl{name: "swapIdx", params: []dmParam{rp("i", dmTInt), rp("r", ri.leaf.t)}, ret: ri.leaf.t, mutating: true},
 					"var t <- r", "self.arr[i] <-> t", "return <- t")
 			}
 		}
 		if ri.hasDict {
-			add(&fnDecl{name: "putKey", params: []param{rp("k", ri.dictKey), rp("r", ri.leaf.t)}, ret: opt(ri.leaf.t), mutating: true},
-				pick(g, []string{"let old <- self.dict[k] <- r", "let old <- self.dict.insert(key: k, <-r)"}), "return <- old")
-			add(&fnDecl{name: "takeKey", params: []param{rp("k", ri.dictKey)}, ret: opt(ri.leaf.t), mutating: true},
+			add(&dmFnDecl{name: "putKey", params: []dmParam{rp("k", ri.dictKey), rp("r", ri.leaf.t)}, ret: dmOpt(ri.leaf.t), mutating: true},
+				dmPick(g, []string{"let old <- self.dict[k] <- r", "let old <- self.dict.insert(key: k, <-r)"}), "return <- old")
+			add(&dmFnDecl{name: "takeKey", params: []dmParam{rp("k", ri.dictKey)}, ret: dmOpt(ri.leaf.t), mutating: true},
 				"return <- self.dict.remove(key: k)")
 			if ri.known {
-				add(&fnDecl{name: "swapKey", params: []param{rp("k", ri.dictKey), rp("r", opt(ri.leaf.t))}, ret: opt(ri.leaf.t), mutating: true},
+				add(&dmFnDecl{name: "swapKey", params: []dmParam{rp("k", ri.dictKey), rp("r", dmOpt(ri.leaf.t))}, ret: dmOpt(ri.leaf.t), mutating: true},
 					"var t <- r", "self.dict[k] <-> t", "return <- t")
 			}
 		}
 		if ri.hasOpt {
-			add(&fnDecl{name: "setOpt", params: []param{rp("r", opt(ri.leaf.t))}, ret: opt(ri.leaf.t), mutating: true},
+			add(&dmFnDecl{name: "setOpt", params: []dmParam{rp("r", dmOpt(ri.leaf.t))}, ret: dmOpt(ri.leaf.t), mutating: true},
 				"let old <- self.opt <- r", "return <- old")
-			add(&fnDecl{name: "optN", ret: opt(tInt)}, "return self.opt?.n")
+			add(&dmFnDecl{name: "optN", ret: dmOpt(dmTInt)}, "return self.opt?.n")
 		}
 		if ri.hasOne {
-			add(&fnDecl{name: "swapOne", params: []param{rp("r", ri.leaf.t)}, ret: ri.leaf.t, mutating: true},
+			add(&dmFnDecl{name: "swapOne", params: []dmParam{rp("r", ri.leaf.t)}, ret: ri.leaf.t, mutating: true},
 				"var t <- r", "self.one <-> t", "return <- t")
-			add(&fnDecl{name: "borrowOne", ret: ref(ri.leaf.t)}, "return &self.one")
+			add(&dmFnDecl{name: "borrowOne", ret: dmRef(ri.leaf.t)}, "return &self.one")
 		}
 		b.close()
 		g.addDecl(b)
@@ -196,8 +196,8 @@ func (g *gen) genResourceDecls() {
 	// attachment
 	if g.chance(2, 5) {
 		name := g.fresh("A")
-		a := &attachment{name: name, base: ri.leaf, q: g.qc}
-		b := &blk{}
+		a := &dmAttachment{name: name, base: ri.leaf, q: g.qc}
+		b := &dmBlk{}
 		b.open("access(all) attachment %s for %s {", name, R)
 		b.add("access(all) let k: Int")
 		b.open("init(k: Int) {")
@@ -214,21 +214,21 @@ func (g *gen) genResourceDecls() {
 	// factory and pass-through functions
 	{
 		mk := g.fresh("mk")
-		b := &blk{}
+		b := &dmBlk{}
 		b.open("access(all) fun %s(_ n: Int): @%s {", mk, R)
 		b.add("return <- create %s(n)", R)
 		b.close()
 		g.addDecl(b)
 		ri.mk = mk
 		mq := g.fresh("mkq")
-		b = &blk{}
+		b = &dmBlk{}
 		b.open("access(all) fun %s(): @%s {", mq, ri.cont.t.String())
 		b.add("return <- create %s()", ri.cont.t.String())
 		b.close()
 		g.addDecl(b)
 		ri.mkQ = mq
 		ps := g.fresh("pass")
-		b = &blk{}
+		b = &dmBlk{}
 		b.open("access(all) fun %s(_ r: @%s, _ c: Bool): @%s {", ps, R, R)
 		b.open("if c {")
 		b.add("r.bump()")
@@ -241,31 +241,31 @@ func (g *gen) genResourceDecls() {
 }
 
 // rs is the state of a resource phase: live resource variables.
-type rstate struct {
-	g     *gen
-	b     *blk
-	s     *scope
-	leafs []*vr // live leaf resources
-	conts []*vr // live containers
-	opts  []*vr // live optional leaf resources (vars)
-	arrs  []*vr // live local @[R]
-	dicts []*vr // live local @{K: R}
-	anys  []*vr // live @AnyResource / @{RI} holding a leaf
+type dmRstate struct {
+	g     *dmGen
+	b     *dmBlk
+	s     *dmScope
+	leafs []*dmVr // live leaf resources
+	conts []*dmVr // live containers
+	opts  []*dmVr // live optional leaf resources (vars)
+	arrs  []*dmVr // live local @[R]
+	dicts []*dmVr // live local @{K: R}
+	anys  []*dmVr // live @AnyResource / @{RI} holding a leaf
 	acc   string
 	// per container: lower bound of arr length, whether opt is known set
-	arrLen map[*vr]int
-	keys   map[*vr][]string
+	arrLen map[*dmVr]int
+	keys   map[*dmVr][]string
 }
 
-func (rs *rstate) newLeafExpr() string {
+func (rs *dmRstate) newLeafExpr() string {
 	g := rs.g
 	if g.chance(1, 2) && !g.outside {
 		return fmt.Sprintf("<- create %s(%d)", g.leafT().String(), g.r.Intn(9))
 	}
-	return fmt.Sprintf("<- %s(%s)", g.fq(g.res.mk), g.expr(rs.s, tInt, 1))
+	return fmt.Sprintf("<- %s(%s)", g.fq(g.res.mk), g.expr(rs.s, dmTInt, 1))
 }
 
-func (rs *rstate) takeLeaf() *vr {
+func (rs *dmRstate) takeLeaf() *dmVr {
 	g := rs.g
 	if len(rs.leafs) == 0 || g.chance(1, 4) {
 		rs.mkLeaf()
@@ -277,29 +277,29 @@ func (rs *rstate) takeLeaf() *vr {
 	return v
 }
 
-func (rs *rstate) mkLeaf() *vr {
+func (rs *dmRstate) mkLeaf() *dmVr {
 	g := rs.g
 	n := g.fresh("r")
-	kw := pick(g, []string{"let", "var"})
+	kw := dmPick(g, []string{"let", "var"})
 	if g.chance(1, 4) {
 		rs.b.add("%s %s: @%s %s", kw, n, g.leafT().String(), rs.newLeafExpr())
 	} else {
 		rs.b.add("%s %s %s", kw, n, rs.newLeafExpr())
 	}
-	v := &vr{name: n, t: g.leafT(), mut: kw == "var", live: true}
+	v := &dmVr{name: n, t: g.leafT(), mut: kw == "var", live: true}
 	rs.s.add(v)
 	rs.leafs = append(rs.leafs, v)
 	return v
 }
 
-func (rs *rstate) addLeaf(name string, mut bool) *vr {
-	v := &vr{name: name, t: rs.g.leafT(), mut: mut, live: true}
+func (rs *dmRstate) addLeaf(name string, mut bool) *dmVr {
+	v := &dmVr{name: name, t: rs.g.leafT(), mut: mut, live: true}
 	rs.s.add(v)
 	rs.leafs = append(rs.leafs, v)
 	return v
 }
 
-func (rs *rstate) cont() *vr {
+func (rs *dmRstate) cont() *dmVr {
 	g := rs.g
 	if len(rs.conts) == 0 || g.chance(1, 8) {
 		n := g.fresh("q")
@@ -308,19 +308,19 @@ func (rs *rstate) cont() *vr {
 		} else {
 			rs.b.add("let %s <- create %s()", n, g.res.cont.t.String())
 		}
-		v := &vr{name: n, t: g.res.cont.t, live: true}
+		v := &dmVr{name: n, t: g.res.cont.t, live: true}
 		rs.s.add(v)
 		rs.conts = append(rs.conts, v)
 	}
-	return pick(g, rs.conts)
+	return dmPick(g, rs.conts)
 }
 
-func (rs *rstate) key() string {
+func (rs *dmRstate) key() string {
 	return rs.g.keyLit(rs.g.res.dictKey, rs.g.r.Intn(3))
 }
 
 // consumeOpt emits code that consumes an optional resource expression held in variable o.
-func (rs *rstate) consumeOpt(o string) {
+func (rs *dmRstate) consumeOpt(o string) {
 	g := rs.g
 	switch g.r.Intn(3) {
 	case 0:
@@ -345,12 +345,12 @@ func (rs *rstate) consumeOpt(o string) {
 
 // resPhase emits a straight-line phase of resource operations; every resource created in the
 // phase is destroyed (or stored in a container that is destroyed) at its end.
-func (g *gen) resPhase(b *blk, s *scope) {
+func (g *dmGen) resPhase(b *dmBlk, s *dmScope) {
 	ri := g.res
 	acc := g.fresh("acc")
 	b.add("var %s = 0", acc)
-	s.add(&vr{name: acc, t: tInt, live: true})
-	rs := &rstate{g: g, b: b, s: s, acc: acc, arrLen: map[*vr]int{}, keys: map[*vr][]string{}}
+	s.add(&dmVr{name: acc, t: dmTInt, live: true})
+	rs := &dmRstate{g: g, b: b, s: s, acc: acc, arrLen: map[*dmVr]int{}, keys: map[*dmVr][]string{}}
 	saveNoRet := s.ctx.noReturn
 	s.ctx.noReturn = true
 	n := 3 + g.r.Intn(8)
@@ -371,7 +371,7 @@ func (g *gen) resPhase(b *blk, s *scope) {
 		}
 		v.live = false
 	}
-	for _, group := range [][]*vr{rs.opts, rs.arrs, rs.dicts, rs.anys, rs.conts} {
+	for _, group := range [][]*dmVr{rs.opts, rs.arrs, rs.dicts, rs.anys, rs.conts} {
 		for _, v := range group {
 			b.add("destroy %s", v.name)
 			v.live = false
@@ -381,7 +381,7 @@ func (g *gen) resPhase(b *blk, s *scope) {
 	s.ctx.noReturn = saveNoRet
 }
 
-func (rs *rstate) op() {
+func (rs *dmRstate) op() {
 	g, b, ri := rs.g, rs.b, rs.g.res
 	R := g.leafT().String()
 	roll := g.r.Intn(100)
@@ -392,7 +392,7 @@ func (rs *rstate) op() {
 		// move to a new variable
 		v := rs.takeLeaf()
 		n := g.fresh("r")
-		kw := pick(g, []string{"let", "var"})
+		kw := dmPick(g, []string{"let", "var"})
 		b.add("%s %s <- %s", kw, n, v.name)
 		rs.addLeaf(n, kw == "var")
 		g.feat("resource-move")
@@ -468,7 +468,7 @@ func (rs *rstate) op() {
 			o := g.fresh("o")
 			k := rs.key()
 			if len(rs.keys[q]) > 0 && g.chance(2, 3) {
-				k = pick(g, rs.keys[q])
+				k = dmPick(g, rs.keys[q])
 			}
 			if g.chance(1, 2) {
 				b.add("let %s <- %s.dict.remove(key: %s)", o, q.name, k)
@@ -525,7 +525,7 @@ func (rs *rstate) op() {
 		if len(rs.leafs) == 0 {
 			rs.mkLeaf()
 		}
-		v := pick(g, rs.leafs)
+		v := dmPick(g, rs.leafs)
 		switch g.r.Intn(4) {
 		case 0:
 			b.add("%s.bump()", v.name)
@@ -604,7 +604,7 @@ func (rs *rstate) op() {
 			} else {
 				b.add("var %s: @%s? <- %s", n, R, v.name)
 			}
-			o := &vr{name: n, t: opt(g.leafT()), mut: true, live: true}
+			o := &dmVr{name: n, t: dmOpt(g.leafT()), mut: true, live: true}
 			rs.s.add(o)
 			rs.opts = append(rs.opts, o)
 			g.feat("optional-resource")
@@ -612,7 +612,7 @@ func (rs *rstate) op() {
 	case roll < 66:
 		// local arrays of resources
 		if len(rs.arrs) > 0 && g.chance(2, 3) {
-			a := pick(g, rs.arrs)
+			a := dmPick(g, rs.arrs)
 			switch g.r.Intn(6) {
 			case 0:
 				v := rs.takeLeaf()
@@ -672,7 +672,7 @@ func (rs *rstate) op() {
 				}
 			}
 			b.add("let %s: @[%s] <- [%s]", n, R, strings.Join(xs, ", "))
-			a := &vr{name: n, t: arr(g.leafT()), live: true, minLen: k}
+			a := &dmVr{name: n, t: dmArr(g.leafT()), live: true, minLen: k}
 			rs.s.add(a)
 			rs.arrs = append(rs.arrs, a)
 			g.feat("resource-array")
@@ -680,8 +680,8 @@ func (rs *rstate) op() {
 	case roll < 71:
 		// local dictionaries of resources
 		if len(rs.dicts) > 0 && g.chance(2, 3) {
-			dv := pick(g, rs.dicts)
-			k := g.keyLit(tString, g.r.Intn(3))
+			dv := dmPick(g, rs.dicts)
+			k := g.keyLit(dmTString, g.r.Intn(3))
 			switch g.r.Intn(3) {
 			case 0:
 				v := rs.takeLeaf()
@@ -698,7 +698,7 @@ func (rs *rstate) op() {
 				n := g.fresh("o")
 				b.add("var %s: @%s? <- %s", n, R, v.name)
 				b.add("%s[%s] <-> %s", dv.name, k, n)
-				ov := &vr{name: n, t: opt(g.leafT()), mut: true, live: true}
+				ov := &dmVr{name: n, t: dmOpt(g.leafT()), mut: true, live: true}
 				rs.s.add(ov)
 				rs.opts = append(rs.opts, ov)
 				g.feat("swap-resource-dict-element")
@@ -706,7 +706,7 @@ func (rs *rstate) op() {
 		} else {
 			n := g.fresh("rd")
 			b.add("let %s: @{String: %s} <- {\"k0\": %s}", n, R, rs.newLeafExpr())
-			dv := &vr{name: n, t: dict(tString, g.leafT()), live: true}
+			dv := &dmVr{name: n, t: dmDict(dmTString, g.leafT()), live: true}
 			rs.s.add(dv)
 			rs.dicts = append(rs.dicts, dv)
 			g.feat("resource-dict")
@@ -735,7 +735,7 @@ func (rs *rstate) op() {
 		} else {
 			v := rs.takeLeaf()
 			n := g.fresh("any")
-			t := tAnyRes
+			t := dmTAnyRes
 			if ri.riface != nil && g.chance(1, 2) {
 				t = ri.riface.ty()
 				b.add("let %s: @{%s} <- %s", n, ri.riface.ref(), v.name)
@@ -743,7 +743,7 @@ func (rs *rstate) op() {
 			} else {
 				b.add("let %s: @AnyResource <- %s", n, v.name)
 			}
-			a := &vr{name: n, t: t, live: true}
+			a := &dmVr{name: n, t: t, live: true}
 			rs.s.add(a)
 			rs.anys = append(rs.anys, a)
 			g.feat("upcast-resource")
@@ -814,7 +814,7 @@ func (rs *rstate) op() {
 		rs.mkLeaf()
 	case roll < 95:
 		// swap two local resources
-		var vs []*vr
+		var vs []*dmVr
 		for _, v := range rs.leafs {
 			if v.mut {
 				vs = append(vs, v)
@@ -852,8 +852,8 @@ func (rs *rstate) op() {
 
 // ------------------------------------------------------------------ entitlements
 
-type entInfo struct {
-	outer   *comp
+type dmEntInfo struct {
+	outer   *dmComp
 	isRes   bool
 	mapped  bool
 	optIn   bool
@@ -862,12 +862,12 @@ type entInfo struct {
 
 // genEntitlementFamily declares entitlements, a mapping, and a composite with entitled members and
 // a mapped field.
-func (g *gen) genEntitlementFamily() {
-	ei := &entInfo{}
+func (g *dmGen) genEntitlementFamily() {
+	ei := &dmEntInfo{}
 	g.entFamily = ei
 	ei.e, ei.f, ei.m = g.fresh("En"), g.fresh("En"), g.fresh("Mp")
 	q := func(n string) string { return g.qualName(n) }
-	b := &blk{}
+	b := &dmBlk{}
 	b.add("access(all) entitlement %s", ei.e)
 	b.add("access(all) entitlement %s", ei.f)
 	b.open("access(all) entitlement mapping %s {", ei.m)
@@ -893,18 +893,18 @@ func (g *gen) genEntitlementFamily() {
 	ei.isRes = g.chance(1, 2) && g.inContract == ""
 	ei.optIn = g.chance(1, 3)
 	outer := g.fresh("Out")
-	kind := "struct"
+	dmKind := "struct"
 	if ei.isRes {
-		kind = "resource"
+		dmKind = "resource"
 	}
-	c := &comp{name: outer, isRes: ei.isRes}
-	k := kStruct
+	c := &dmComp{name: outer, isRes: ei.isRes}
+	k := dmKStruct
 	if ei.isRes {
-		k = kRes
+		k = dmKRes
 	}
-	c.t = &ty{k: k, name: outer, comp: c, q: g.qc}
+	c.t = &dmTy{k: k, name: outer, comp: c, q: g.qc}
 	ei.outer = c
-	b.open("access(all) %s %s {", kind, outer)
+	b.open("access(all) %s %s {", dmKind, outer)
 	it := q(inner)
 	if ei.optIn {
 		it += "?"
@@ -936,7 +936,7 @@ func (g *gen) genEntitlementFamily() {
 	g.feat("entitlement-mapping")
 }
 
-func (g *gen) entPhase(b *blk, s *scope) {
+func (g *dmGen) entPhase(b *dmBlk, s *dmScope) {
 	ei := g.entFamily
 	q := func(n string) string { return g.qualName(n) }
 	o := g.fresh("ent")
@@ -949,7 +949,7 @@ func (g *gen) entPhase(b *blk, s *scope) {
 	e, f := q(ei.e), q(ei.f)
 	acc := g.fresh("ea")
 	b.add("var %s = 0", acc)
-	s.add(&vr{name: acc, t: tInt, live: true})
+	s.add(&dmVr{name: acc, t: dmTInt, live: true})
 	ra, rp := g.fresh("ra"), g.fresh("rp")
 	b.add("let %s = &%s as auth(%s) &%s", ra, o, e, T)
 	b.add("let %s = &%s as &%s", rp, o, T)
